@@ -37,10 +37,11 @@ import (
 
 // Fault kinds.
 const (
-	PRE      = "pre"      // the call is refused (Unavailable) before anything runs
-	OVERLOAD = "overload" // the service's own 'currently overloaded' answer
-	MID      = "mid"      // the stream drops after the first update; the server side is cancelled
-	POST     = "post"     // the job wrote all its files, the client sees a dropped stream instead of EOF
+	PRE      = "pre"          // the call is refused (Unavailable) before anything runs
+	OVERLOAD = "overload"     // the service's own 'currently overloaded' answer
+	MID      = "mid"          // the stream drops after the first update; the server side is cancelled
+	POST     = "post"         // the job wrote all its files, the client sees a dropped stream instead of EOF
+	MIDC     = "mid-canceled" // like mid, but the client receives the status the worker itself answers when it is cancelled (tier2's real error mapping: Canceled) while the tier1 request is alive
 )
 
 type Fault struct {
@@ -151,7 +152,7 @@ func (c *fakeClient) ProcessRange(ctx context.Context, req *pbssinternal.Process
 		resp := func(r substreams.ResponseFromAnyTier) error {
 			if m, ok := r.(*pbssinternal.ProcessRangeResponse); ok {
 				sent++
-				if kind == MID && sent >= 1 {
+				if (kind == MID || kind == MIDC) && sent >= 1 {
 					cancel() // the connection is gone: the server's context is cancelled, nothing more reaches the client
 					return status.Error(codes.Unavailable, "transport is closing")
 				}
@@ -168,6 +169,11 @@ func (c *fakeClient) ProcessRange(ctx context.Context, req *pbssinternal.Process
 		switch {
 		case kind == MID:
 			st.done <- status.Error(codes.Unavailable, "stream dropped: transport is closing")
+		case kind == MIDC:
+			if grpcErr == nil {
+				grpcErr = status.Error(codes.Canceled, "context canceled")
+			}
+			st.done <- grpcErr
 		case kind == POST:
 			st.done <- status.Error(codes.Unavailable, "stream dropped before completion was reported")
 		case grpcErr != nil:
@@ -359,6 +365,12 @@ func Run(ctx *core.Ctx) int {
 								return false
 							}
 						}
+						// the fifth kind only as first or second fault of a plan (keeps the multiset count in bounds)
+						if len(cur) < 2 && prog != "samestage" {
+							if !rec(j, append(cur, Fault{Job: j, Attempt: att, Kind: MIDC})) {
+								return false
+							}
+						}
 					}
 					return true
 				}
@@ -400,7 +412,7 @@ func Run(ctx *core.Ctx) int {
 		jobsInfo[k] = fmt.Sprintf("%d jobs %v", len(b.units), b.units)
 	}
 	ctx.Cov["jobs_of_the_fault_free_runs"] = jobsInfo
-	ctx.Cov["rule"] = fmt.Sprintf("request [%d,%d), segment %d, final block %d, both modes, on %v: every multiset of <= %d transient faults over the (job, attempt) sites of the request x kinds {call refused, service overloaded, stream dropped mid-way with the server side cancelled, stream dropped after the job wrote all its files}; and a deterministic module failure at every block 1..%d in every store and in the output map. The jobs are executed by the real work.RemoteWorker (retry loop, error classification) talking to a fake in-process transport whose server side is the real Tier2Service.processRange with the real tier2 error mapping. Oracle: transient -> the request completes with the fault-free stream; deterministic -> the error maps to invalid-argument through the real tier1 mapping, every delivered block is below the failing block, the delivered sequence is a prefix of the fault-free one, nothing after the error. Non-trivial: at least one injected fault site was reached.", start, stop, seg, final, progsList, maxFaults, stop-1)
+	ctx.Cov["rule"] = fmt.Sprintf("request [%d,%d), segment %d, final block %d, both modes, on %v: every multiset of <= %d transient faults over the (job, attempt) sites of the request x kinds {call refused, service overloaded, stream dropped mid-way with the server side cancelled (seen by the client as Unavailable, or - as first or second fault - as the worker's own Canceled status), stream dropped after the job wrote all its files}; and a deterministic module failure at every block 1..%d in every store and in the output map. The jobs are executed by the real work.RemoteWorker (retry loop, error classification) talking to a fake in-process transport whose server side is the real Tier2Service.processRange with the real tier2 error mapping. Oracle: transient -> the request completes with the fault-free stream; deterministic -> the error maps to invalid-argument through the real tier1 mapping, every delivered block is below the failing block, the delivered sequence is a prefix of the fault-free one, nothing after the error. Non-trivial: at least one injected fault site was reached.", start, stop, seg, final, progsList, maxFaults, stop-1)
 	ctx.Assume = []string{
 		"the gRPC transport is replaced by an in-process stream (status errors are constructed as grpc-go would deliver them); bufconn was not needed",
 		"DeadlineExceeded is not in the transient alphabet: the worker gives up after three by design",
